@@ -115,6 +115,17 @@ func (g *gen) newVar(declared string, t schema.Type, dflt string) string {
 	return "$" + name
 }
 
+// a variable of any type, to be put inside a list or object literal given for a custom scalar
+func (g *gen) nestedVar(vars bool) string {
+	if !vars || g.op == nil || !g.r.Chance(1, 3) {
+		return ""
+	}
+	if len(g.op.Vars) > 0 && g.r.Chance(1, 2) {
+		return "$" + g.op.Vars[g.r.Intn(len(g.op.Vars))].Name
+	}
+	return g.newVar("Int", graphql.IntType, "")
+}
+
 // a variable usable at a position of type t (whose argument / field definition has a default
 // value iff locDefault), or "" if none is wanted / possible
 func (g *gen) variableFor(t schema.Type, locDefault bool) string {
@@ -216,8 +227,15 @@ func (g *gen) literalNN(t schema.Type, depth int, vars bool) string {
 		case "Custom":
 			return rng.Pick(r, []string{`"c"`, "12"})
 		case "OnlyObj":
+			if v := g.nestedVar(vars); v != "" {
+				// nothing is expected of what a literal for a scalar contains: any variable will do
+				return rng.Pick(r, []string{`{a: ` + v + `}`, `[1, ` + v + `]`, `{a: {b: [` + v + `]}}`, `[[` + v + `]]`})
+			}
 			return rng.Pick(r, []string{`{a: 1}`, `[1, "x"]`, `{}`})
 		default: // Any
+			if v := g.nestedVar(vars); v != "" {
+				return rng.Pick(r, []string{`{a: ` + v + `}`, `[` + v + `]`, `{a: {b: [1, ` + v + `]}}`, `[{k: ` + v + `}, ` + v + `]`})
+			}
 			return rng.Pick(r, []string{"1", `"x"`, "true", "1.5", "RED", `[1, {k: "v"}]`, `{a: {b: [1]}}`})
 		}
 	case *schema.EnumType:
